@@ -22,7 +22,7 @@ func init() {
 		rng := rand.New(rand.NewSource(seed*503 + 17))
 		n := 200
 		if tier == "thorough" {
-			n = 8000
+			n = 30000
 		}
 		for i := 0; i < n; i++ {
 			cfg := WorldCfg{Dir: allDirs[rng.Intn(len(allDirs))]}
